@@ -126,17 +126,34 @@ func HCDate(ylo, yhi int) {
 	zz.Assert(zz.And(back.Unix() == sec, back.Nanosecond() == 0), "date round-trips through text to the same day")
 }
 
-func HCDateTime(ylo, yhi int) {
+// HCDateTime: offMin is a concrete offset in minutes east of UTC (0: UTC), as on the JSON side.
+func HCDateTime(ylo, yhi, offMin int) {
 	lo := time.Date(ylo, 1, 1, 0, 0, 0, 0, time.UTC).Unix()
 	hi := time.Date(yhi+1, 1, 1, 0, 0, 0, 0, time.UTC).Unix()
 	sec := zz.Int64()
-	zz.Assume(zz.And(sec >= lo, sec < hi))
-	s := DateTimeToString(time.Unix(sec, 0).UTC())
+	zz.Assume(zz.And(sec >= lo+86400, sec < hi-86400))
+	t := time.Unix(sec, 0).UTC()
+	off := offMin * 60
+	if offMin != 0 {
+		t = t.In(time.FixedZone("", off))
+	}
+	s := DateTimeToString(t)
 	zz.Cover("conv-date-time-encoded")
-	zz.Assert(len(s) == 20 && s[19] == 'Z' && s[10] == 'T', "UTC date-time text is YYYY-MM-DDTHH:MM:SSZ")
+	if offMin == 0 {
+		zz.Assert(len(s) == 20 && s[19] == 'Z' && s[10] == 'T', "UTC date-time text is YYYY-MM-DDTHH:MM:SSZ")
+	} else {
+		a, sign := offMin, byte('+')
+		if a < 0 {
+			a, sign = -a, '-'
+		}
+		want := string([]byte{sign, '0' + byte(a/600), '0' + byte(a/60%10), ':', '0' + byte(a%60/10), '0' + byte(a%10)})
+		zz.Assert(len(s) == 25 && s[10] == 'T' && zz.EqString(s[19:], want), "a zoned date-time text ends in its offset written as +hh:mm / -hh:mm")
+	}
 	back, err := ToDateTime(s)
 	zz.Assert(err == nil, "date-time text parses")
 	zz.Assert(zz.And(back.Unix() == sec, back.Nanosecond() == 0), "date-time round-trips through text to the same instant")
+	_, boff := back.Zone()
+	zz.Assert(boff == off, "date-time keeps its UTC offset through text")
 }
 
 // HCTime: TimeToString -> ToTime for every second of the day.
